@@ -29,8 +29,23 @@ def forced_parser(rng, k, constexpr):
     for i in range(len(terms)): rules.append({"lhs": "item", "rhs": [(1, i)], "prec_given": False, "prec": 0, "ctx": False, "default": False})
     return {"id": k, "nts": nts, "root": "list", "terms": terms, "rules": rules, "constexpr": constexpr}
 
+def forced_parser2(rng, constexpr):
+    """a conflict-free grammar written with the DSL features that only the glue sees: nonterminal names in prefix relation declared in
+    both orders, a declared nonterminal WITHOUT rules in the middle of nterms(...), rules listed out of left-side order, a string term
+    that extends a char term; the language oracle (Earley on the rules as written) judges every verdict"""
+    C = lambda c: {"kind": 0, "data": [ord(c)], "id": char_id(ord(c)), "name": char_id(ord(c)), "prec": 0, "assoc": 0}
+    S = lambda s_: {"kind": 1, "data": [ord(c) for c in s_], "id": [ord(c) for c in s_], "name": [ord(c) for c in s_], "prec": 0, "assoc": 0}
+    terms = [C(","), C("("), C(")"), C("x"), S("xy"), C(";")]
+    variant = rng.randrange(3)
+    nts = [["expr_list", "unused", "expr", "e"], ["e", "expr", "unused", "expr_list"], ["unused", "expr_list", "e", "expr"]][variant]
+    R = lambda l, rhs, ctx=False, default=False: {"lhs": l, "rhs": rhs, "prec_given": False, "prec": 0, "ctx": ctx, "default": default}
+    rules = [R("e", [(1, 3)]), R("expr_list", [(0, "expr_list"), (1, 0), (0, "expr")], ctx=True), R("expr", [(1, 1), (0, "expr_list"), (1, 2)]),
+             R("e", [(1, 4)]), R("expr_list", [(0, "expr")], default=True), R("expr", [(0, "e")], default=True), R("expr", [(0, "e"), (1, 5)])]
+    return {"id": 2, "nts": nts, "root": "expr_list", "terms": terms, "rules": rules, "constexpr": constexpr}
+
 def gen_parser(rng, k, constexpr):
     if k == 1: return forced_parser(rng, FORCED_LAYOUT[0], constexpr) | {"id": k}
+    if k == 2: return forced_parser2(rng, constexpr)
     nts = list(rng.choice(NT_POOL)); rng.shuffle(nts); nts = nts[:rng.randint(1, len(nts))]
     root = nts[0]
     terms = []
